@@ -91,6 +91,10 @@ impl SharedBuf {
             pos: 0,
         }
     }
+    /// A second view of the same bytes and control block, positioned at 0.
+    pub fn fresh(&self) -> SharedBuf {
+        SharedBuf { data: self.data.clone(), ctl: self.ctl.clone(), pos: 0 }
+    }
     pub fn snapshot(&self) -> Vec<u8> {
         self.data.lock().unwrap().clone()
     }
